@@ -277,7 +277,9 @@ class Paraxial:
         y, u = self._trace_generic(y0, u0, z0, wavelength, reverse=True,
                                    skip=stop_index+1)
 
-        max_field = self.optic.fields.max_y_field
+        # Hy = 1 is the largest field magnitude (as for real rays), which is
+        # not the algebraically largest y field when fields are negative
+        max_field = self.optic.fields.max_field
 
         if self.optic.field_type == 'object_height':
             # ray height on the object (the object surface does not
